@@ -63,7 +63,7 @@ func init() {
 		MinEvals:    floor(100000, 2000000),
 		MinDistinct: floor(20000, 300000),
 		RequiredCells: func(string) []string {
-			cells := []string{"family/a-random", "family/b-mutants", "family/c-signed-malformed", "family/d-bad-key-material", "family/e-hostile-lengths", "family/f-policy-x-data", "bomb/cbor-list", "bomb/cbor-map", "bomb/json-list", "bomb/policy-not", "bomb/signed-deep-args", "bomb/signed-deep-pol", "bomb/selector-long", "bomb/policy-nested-any-failing", "bomb/policy-nested-all-passing", "bomb/policy-nested-and-or-not", "bomb/car-zero-sections", "bomb/cbor-container-empty-entries", "bomb/json-whitespace", "bomb/json-wide-list", "bomb/selector-question-marks", "bomb/signed-wide-args", "bomb/signed-wide-pol", "car-length-sweep", "rss-measured", "past-first-layer"}
+			cells := []string{"family/a-random", "family/b-mutants", "family/c-signed-malformed", "family/d-bad-key-material", "family/e-hostile-lengths", "family/f-policy-x-data", "bomb/cbor-list", "bomb/cbor-map", "bomb/json-list", "bomb/policy-not", "bomb/signed-deep-args", "bomb/signed-deep-pol", "bomb/selector-long", "bomb/policy-nested-any-failing", "bomb/policy-nested-all-passing", "bomb/policy-nested-and-or-not", "bomb/car-zero-sections", "bomb/cbor-container-empty-entries", "bomb/json-whitespace", "bomb/json-wide-list", "bomb/selector-question-marks", "bomb/signed-wide-args", "bomb/signed-wide-pol", "car-length-sweep", "like-families", "rss-measured", "past-first-layer"}
 			for _, e := range []string{"token.FromSealed", "token.FromDagJson", "delegation.FromSealed", "invocation.FromSealed", "container.FromCbor", "container.FromCar", "container.FromCborBase64", "container.FromCarBase64", "policy.FromDagJson", "policy.FromIPLD", "Policy.Match", "selector.Parse", "Selector.Select", "did.Parse", "DID.PubKey", "args.Add", "literal.Any"} {
 				cells = append(cells, "entry/"+e)
 			}
@@ -798,6 +798,39 @@ func c09Bulk(w *mon.W, part, parts int) {
 
 	// ---- (f) policies x data of every kind
 	c.family = "f-policy-x-data"
+	// like statements against strings they were derived from (prefix*, *suffix, head*tail with
+	// head and tail overlapping in the subject, escapes, runs of stars) and exhaustively over a
+	// small alphabet: matching is an entry point for untrusted argument data
+	{
+		small := allStrings(`ab*\`, 4)
+		for pi, pat := range small {
+			if pi%parts != part || !ref.GlobValid(pat) {
+				continue
+			}
+			pol, err := policy.Construct(policy.Like(".", pat))
+			if err != nil {
+				continue
+			}
+			for _, str := range small {
+				n := ref.Str(str).Node()
+				c.call("Policy.Match", "like-exhaustive-small", []byte(pat+"\x00"+str), func() { _, _ = pol.Match(n); _, _ = pol.PartialMatch(n) })
+			}
+		}
+		for i := 0; i < share(w.Pick(3000, 60000)); i++ {
+			str := gen.String(r, gen.ValOpts{})
+			if r.IntN(3) == 0 {
+				str += gen.String(r, gen.ValOpts{})
+			}
+			pat := gen.GlobFor(r, str)
+			pol, err := policy.Construct(policy.Like(".", pat))
+			if err != nil {
+				continue
+			}
+			n := ref.Str(str).Node()
+			c.call("Policy.Match", "like-derived-from-subject", []byte(pat+"\x00"+str), func() { _, _ = pol.Match(n); _, _ = pol.PartialMatch(n) })
+		}
+		w.Cover("like-families")
+	}
 	for i := 0; i < share(w.Pick(4000, 120000)); i++ {
 		var pv ref.V
 		if i%3 == 0 {
